@@ -859,6 +859,12 @@ class Evaluator(PE):
 
     def st_Assign(self, st, p, live):
         out = []
+        if len(st.targets) == 1 and isinstance(st.targets[0], ast.Subscript) and any(isinstance(n, ast.Call) for n in ast.walk(st.targets[0].slice)):
+            # the key expression may fork (an inlined helper): evaluate it together with the value
+            for (v, k), q in self.ev_many([st.value, st.targets[0].slice], p):
+                self.bind(st.targets[0], v, q, key=k)
+                out.append(q)
+            return out
         for v, q in self.ev(st.value, p):
             for t in st.targets:
                 self.bind(t, v, q)
